@@ -315,7 +315,8 @@ func runC10(c C10Case) *Result {
 			fr := stack[len(stack)-1]
 			stack = stack[:len(stack)-1]
 			for _, in := range insts {
-				if err := in.Acc().Undo(uint64(fr.b.Add), cloneProof(fr.proof), cloneHashes(fr.delH), cloneHashes(fr.roots)); err != nil {
+				in.ar.next()
+				if err := in.Acc().Undo(uint64(fr.b.Add), in.ar.proof(fr.proof), in.ar.hashes(fr.delH), in.ar.hashes(fr.roots)); err != nil {
 					res.class("setup-failed")
 					return res
 				}
